@@ -235,7 +235,7 @@ impl H {
     pub fn result_count(&self, tag: u64) -> usize { self.results.lock().unwrap().iter().filter(|(t, _)| *t == tag).count() }
     pub fn result_of(&self, tag: u64) -> Option<Outcome> { self.results.lock().unwrap().iter().find(|(t, _)| *t == tag).map(|(_, o)| o.clone()) }
 
-    // ------------------------------------------------------------------ executable wf() (W0..W13 of DESIGN.md 1.1)
+    // ------------------------------------------------------------------ executable wf() (W0..W14 of DESIGN.md 2)
     pub fn check_wf(&self) -> Result<(), String> {
         let s = &self.ps;
         if s.next_packet_id == 0 { return Err("W1 next_packet_id == 0".into()); }
@@ -271,6 +271,13 @@ impl H {
         if (s.state == ProtocolStateType::Connected || s.state == ProtocolStateType::PendingDisconnect) && s.current_settings.is_none() { return Err("W10 no settings while connected".into()); }
         if s.state == ProtocolStateType::PendingConnack && s.connack_timeout_timepoint.is_none() { return Err("W11 no CONNACK deadline".into()); }
         if s.state == ProtocolStateType::PendingDisconnect && s.current_operation.is_some() { return Err("W13 current operation in PendingDisconnect".into()); }
+        for id in s.pending_write_completion_operations.iter() {
+            if *id >= s.next_operation_id { return Err(format!("W14 unknown id {} awaits a write completion", id)); }
+            if let Some(op) = s.operations.get(id) {
+                let takes = match &*op.packet { MqttPacket::Subscribe(_) | MqttPacket::Unsubscribe(_) => true, MqttPacket::Publish(x) => x.qos != QualityOfService::AtMostOnce, _ => false };
+                if takes { return Err(format!("W14 operation {} awaits a write completion but completes only with a response packet", id)); }
+            }
+        }
         if s.state == ProtocolStateType::PendingConnack {
             for id in s.high_priority_operation_queue.iter() {
                 if let Some(op) = s.operations.get(id) { if !matches!(&*op.packet, MqttPacket::Connect(_)) { return Err(format!("W7 non-CONNECT op {} in high-priority queue before CONNACK", id)); } }
